@@ -55,6 +55,7 @@ CONTRACTS += [
         returns="RdC(candle, name)",
         native_effect=_own_read_candle,
         props=["C20", "C13"],
+        assumed=True,  # the key-search loops over the two per-candle dicts are not yet verified against Rd
     ),
     Contract(
         "hexital.utils.candles.reading_by_index",
